@@ -1,6 +1,7 @@
 """C03 Adding, removing or replacing a child leaves everything else untouched (confinement oracle + list gap rule)."""
 from .. import common, gen, ops, confine, walker, storemodel
 from autobean_refactor import models
+from autobean_refactor.models import base as mbase
 
 CASES = {'quick': 5000, 'thorough': 100000}
 SMALL_BLOCKS = 4      # runner: every 4th case keeps its stores in 2..10-token blocks
@@ -100,9 +101,21 @@ def run_case(col, r, idx):
             if op is None:
                 col.skip('no applicable operation drawn')
                 continue
+            if getattr(op, 'unreadable', None):
+                col.ev()
+                col.violation('document-unreadable-after-accepted-edits', f'after {log[-1] if log else "the parse"}: {op.unreadable}',
+                              {'text': text, 'lf': lf, 'log': log})
+                return
             if getattr(op, 'composite', False):
                 continue     # pop-and-reinsert is two operations; C05 drives it, this oracle judges single calls
-            before = confine.Before(f, op)
+            try:
+                before = confine.Before(f, op)
+            except Exception as e:
+                # the snapshot only reads: tokens of the store, the parent's own tokens, the slot's nodes
+                col.ev()
+                col.violation('document-unreadable-after-accepted-edits', f'after {log[-1] if log else "the parse"}: reading the tokens of '
+                              f'{op.path} raised {type(e).__name__}: {e}', {'text': text, 'lf': lf, 'log': log})
+                return
             cost_before = _cost_components(op.parent) if isinstance(op.parent, models.CostSpec) else None
             items_before = None
             if hasattr(op, 'list_attr'):
@@ -161,7 +174,10 @@ def run_case(col, r, idx):
                         return
             if op.list_check is not None:
                 # which child the call adds/removes/replaces is defined by list semantics: anything else touched a sibling
-                msg = op.list_check()
+                try:
+                    msg = op.list_check()
+                except Exception as e:
+                    msg = f'reading the list after the call raised {type(e).__name__}: {e}'
                 if msg:
                     wit['after'] = common.store_text(f.token_store)
                     col.violation(f'wrong-child-affected:{op.kind}', f'{op.desc}: the call changed another element than the one it addresses ({msg})', wit)
@@ -238,13 +254,22 @@ def _view_run_with_a_sibling_inside(col, r, f, text, lf, log):
     a = r.randint(0, a)
     raw_before = list(getattr(m, raw_attr))
     fb = [x for x in raw_before if not shown(x)]
-    how = r.choice(['del', 'del', 'del-negative', 'clear'])
-    desc = {'del': f'del {path}.{v}[{a}:{b}]', 'del-negative': f'del {path}.{v}[{a - n}:{b}]', 'clear': f'{path}.{v}.clear()'}[how]
+    how = r.choice(['del', 'del', 'del-negative', 'clear', 'discard', 'discard', 'remove'])
+    victim = None
+    if how in ('discard', 'remove'):
+        # ... or one element that stands behind the sibling, addressed by value
+        victim = list(w)[b - 1]
+    desc = {'del': f'del {path}.{v}[{a}:{b}]', 'del-negative': f'del {path}.{v}[{a - n}:{b}]', 'clear': f'{path}.{v}.clear()',
+            'discard': f'{path}.{v}.discard(<element {b - 1}>)', 'remove': f'{path}.{v}.remove(<element {b - 1}>)'}[how]
     try:
         if how == 'del':
             del w[a:b]
         elif how == 'del-negative':
             del w[a - n:b]
+        elif how == 'discard':
+            w.discard(victim)
+        elif how == 'remove':
+            w.remove(victim)
         else:
             w.clear()
     except Exception as e:
@@ -259,6 +284,18 @@ def _view_run_with_a_sibling_inside(col, r, f, text, lf, log):
                       f'{[common.pr(x) for x in fb]} and are {[common.pr(x) for x in fa]}',
                       {'text': text, 'lf': lf, 'log': log + [desc], 'after': common.store_text(f.token_store)})
         return False
+    if victim is not None:
+        left = list(w)
+        gone = n - len(left)
+        if how == 'remove' and gone != 1 or how == 'discard' and gone < 1 or any((x is victim) if isinstance(victim, mbase.RawModel) else False for x in left):
+            col.violation(f'wrong-element-removed:run:{how}', f'{desc}: the view had {n} elements and has {len(left)} now' +
+                          (', the addressed one among them' if any(x is victim for x in left) else ''),
+                          {'text': text, 'lf': lf, 'log': log + [desc], 'after': common.store_text(f.token_store)})
+            return False
+        if not isinstance(victim, mbase.RawModel) and how == 'discard' and victim in left:
+            col.violation('wrong-element-removed:run:discard', f'{desc}: {victim!r} is still in the view',
+                          {'text': text, 'lf': lf, 'log': log + [desc], 'after': common.store_text(f.token_store)})
+            return False
     printed = common.store_text(f.token_store)
     missing = [common.pr(x) for x in fb if common.pr(x) not in printed]
     if missing:
